@@ -225,6 +225,15 @@ impl<T: Config> SyncLayer<T> {
         }
     }
 
+    /// Resets the predictions after [`Self::load_frame`]: the current frame is the frame that has just
+    /// been loaded.
+    pub(crate) fn reset_prediction_after_load(&mut self) {
+        let loaded_frame = self.current_frame;
+        for i in 0..self.num_players {
+            self.input_queues[i].reset_prediction_after_load(loaded_frame);
+        }
+    }
+
     /// Loads the gamestate indicated by `frame_to_load`.
     pub(crate) fn load_frame(&mut self, frame_to_load: Frame) -> GgrsRequest<T> {
         // The state should not be the current state or the state should not be in the future or too far away in the past
